@@ -20,6 +20,7 @@ IsComponentHost(tag, o) ==
 TagDenotes(tag, o) ==
   CASE tag.k = "html"   -> Name(tag.name)
     [] tag.k = "custom" -> IF AnyPatternMatches(o, tag.name) THEN Name(tag.name)
+                           ELSE IF tag.bound THEN tag.rv
                            ELSE [t |-> "resolved", kind |-> "component", name |-> tag.name]
     [] tag.k = "comp"   -> IF tag.bound THEN tag.rv
                            ELSE [t |-> "resolved", kind |-> "component", name |-> tag.name]
